@@ -19,7 +19,10 @@
             (3 value type)                  -> (has_ty)                                               C34 judge
             (4 typeA typeB)                 -> (A<:B B<:A)
             (5 prog)                        -> (lax_ok strict_ok Known_C02)
-            (6 strict prog x)               -> (class)  known_c34 of the defining expression of top-level binding x *)
+            (6 strict prog x)               -> (class)  known_c34 of the defining expression of top-level binding x
+            (7 accepted executed)           -> (judge_c05)
+            (8 class)                       -> (judge_c02)  class: 0 none 4 TypeError 5 wrapper ValueError 7 NameError
+                                                            8 AttributeError, other codes = legitimate errors (err_code) *)
 From Coq Require Import ZArith List Bool.
 From ErgV Require Import Common.Sx CoreErg.Syntax CoreErg.Sem Typing.Types Typing.Check Typing.Eval Typing.Inject Typing.Spec.
 Import ListNotations.
@@ -271,6 +274,12 @@ Definition run (x : sx) : sx :=
     | Some pr => SL [sx_bool (typecheck false pr); sx_bool (typecheck true pr); sx_bool (Known_C02 pr)]
     | None => bad
     end
+  | SL [SZ 7; SZ a; SZ e] => SL [sx_bool (judge_c05 (negb (a =? 0)) (negb (e =? 0)))]
+  | SL [SZ 8; SZ c] =>
+    SL [sx_bool (judge_c02 (if c =? 0 then Exit0 else Uncaught (if c =? 4 then EType else if c =? 5 then EWrapValue
+                             else if c =? 7 then EName else if c =? 8 then EAttr else if c =? 1 then EZeroDiv
+                             else if c =? 2 then EAssert else if c =? 3 then EIndex else if c =? 6 then EOverflow
+                             else EUnmodelled)))]
   | SL [SZ 6; p; SZ x] =>
     match dec_prog p with
     | Some pr => match def_of x pr None with Some e => SL [SZ (known_c34 e)] | None => SL [SZ 0] end
